@@ -30,7 +30,7 @@ ASSUMPTIONS = [
 ]
 REQUIRED_COUNTERS = ["mean_comparisons", "diffusion_comparisons", "variance_bound_checks", "representations_set",
                      "nd_margin_mean_comparisons", "nd_diffusion_comparisons", "nd_central_cell_second_moments",
-                     "nd_central_cell_second_moments_decisive", "nd_central_cell_cross_moments", "pure_jump_models_with_added_brownian_component"]
+                     "nd_central_cell_second_moments_decisive", "nd_central_cell_cross_moments", "pure_jump_models_with_added_brownian_component", "model_object_used_by_an_earlier_chain"]
 MIN_NONTRIVIAL = {"quick": 60, "thorough": 400}
 SHARD_TIMEOUT = {"quick": 900, "thorough": 7200}
 REPS = ["native", "ZERO", "CENTER", "ONEONE", "TILDE"]
@@ -55,6 +55,8 @@ def gen_cases(tier, seed):
             cases.append({"model": m, "rep": rep, "grid": G.gen_grid_spec(rng, ctor, 1), "level": lev, "method": meth})
             if m["family"] in ("CGMY", "VG") and not m.get("exp") and i % 2:
                 cases[-1]["extra_sigma"] = W.r6(rng.uniform(0.05, 0.4))
+            if ctor in ("fixed", "geometric_bounds"):
+                cases[-1]["after_narrow_chain"] = True
     for j in range(8 if not thorough else 60):
         dim = 2 if j % 3 else 3
         cm = W.gen_copula_model_spec(rng, dim=dim, kind=["clayton", "independent", "clayton", "dependent"][j % 4], exp=bool(j % 2))
@@ -125,7 +127,8 @@ def _set_rep(model, rep, R):
     if rep == "native":
         return model.levy_triplet.representation.name
     model.levy_triplet.set_representation(getattr(LevyRepresentation, rep))
-    R.hit("representations_set")
+    if R is not None:
+        R.hit("representations_set")
     return rep
 
 
@@ -189,6 +192,21 @@ def _run_1d(case, R):
     sigma = float(model.levy_triplet.sigma)
     drift_model = float(model.drift())
     dens = model.levy_triplet.nu.__call__
+    if case.get("after_narrow_chain") and ctor in ("fixed", "geometric_bounds"):
+        # the model object first serves a chain on a narrow grid (the user's object must come out of it unchanged); the oracle of the
+        # chain under test is read from an identical model built apart, before anything was done with it
+        ref = W.build_model(mspec)
+        if case.get("extra_sigma"):
+            ref.levy_triplet.sigma = float(case["extra_sigma"])
+        _set_rep(ref, rep_req, None)
+        a_rep, sigma, drift_model, dens = float(ref.levy_triplet.a), float(ref.levy_triplet.sigma), float(ref.drift()), ref.levy_triplet.nu.__call__
+        try:
+            narrow = G.build_grid({"ctor": "fixed", "dim": 1, "h": float(g["_h"]) / 3.0, "n": 7}, model)
+            p0, _ = C.build_chain(model, narrow, "ALIAS", False)
+            p0.initialisation(_product())
+            R.hit("model_object_used_by_an_earlier_chain")
+        except Exception:  # noqa: BLE001  (the narrow chain itself is not the subject)
+            pass
     alpha, br = W.activity_index(mspec), W.density_breakpoints(mspec)
     axis = np.asarray(grid.axes[0], dtype=float)
     l, r = float(axis[0]), float(axis[-1])
